@@ -23,6 +23,7 @@ PLAN = {
                 slices=["fixrun", "comp"], ref="§7 C17"),
     "C16": dict(families=[("skin", 30, 300)], oracle=lambda h: T.skin_cases(h)[1], slices=["skin"], ref="§7 C16"),
     "C03": dict(families=[("join", 36, 360)], oracle=lambda h: T.oracle_join(h), slices=["snapj"], ref="§7 C03"),
+    "C07": dict(families=[("promo", 30, 300)], oracle=lambda h: T.oracle_promo(h), slices=["promo"], ref="§7 C07"),
     "C06": dict(families=[("asset", 36, 360)], oracle=lambda h: T.oracle_assets(h), slices=["asset"], ref="§7 C06"),
     "C08": dict(families=[("fault", 96, 768)], oracle=lambda h: T.oracle_fault(h), slices=["fault"], ref="§7 C08"),
 }
@@ -64,7 +65,7 @@ def slice_lines(h, kind, flags):
 
 def read_flags():
     flags = {}
-    for f in ("Sync.lean", "Guards.lean", "Conn.lean", "Asset.lean", "Snap.lean", "Ent.lean"):
+    for f in ("Sync.lean", "Guards.lean", "Conn.lean", "Asset.lean", "Snap.lean", "Ent.lean", "Promo.lean"):
         p = os.path.join(C.LEAN, "BevySyncModel", "Generated", f)
         if os.path.exists(p):
             for m in re.finditer(r"def (\w+) : Bool := (true|false)", open(p).read()):
@@ -139,6 +140,10 @@ def check(prop_id, tier, seed, replay=None):
             for l in T.asset_lines(h, flags.get("assetTokensCounted", True), flags.get("assetRequestSkipsServed", False)):
                 inst_of[l.split(" ")[1]] = (h, {})
                 lines.append(l)
+        if "promo" in plan["slices"]:
+            for l in T.promo_lines(h):
+                inst_of[l.split(" ")[1]] = (h, {})
+                lines.append(l)
         if "snapj" in plan["slices"]:
             for l in T.snap_lines(h):
                 inst_of[l.split(" ")[1]] = (h, {})
@@ -151,7 +156,7 @@ def check(prop_id, tier, seed, replay=None):
             for l in T.fix_cases(h, flags.get("fixReinsertsValue", False))[0]:
                 inst_of[l.split(" ")[1]] = (h, {})
                 lines.append(l)
-        for kind in [k for k in plan["slices"] if k not in ("fault", "skin", "fixrun", "filter", "conn", "asset", "mark", "snapj")]:
+        for kind in [k for k in plan["slices"] if k not in ("fault", "skin", "fixrun", "filter", "conn", "asset", "mark", "snapj", "promo")]:
             for inst, ls, meta in slice_lines(h, kind, flags):
                 if ls is None:
                     skipped += 1
